@@ -390,7 +390,9 @@ func (r *Runner) symExec(job *Job, jr *JobResult) (paths []pathResult, err error
 						e = ee
 						return
 					}
-					panic(rec)
+					// an internal fault of the interpreter on this job: the job is inconclusive, the other jobs of the
+					// worker are unaffected
+					e = engineError{fmt.Sprintf("internal engine fault: %v", rec)}
 				}
 			}()
 			in.runInit(l, st)
